@@ -26,17 +26,19 @@ def cli_confirms(src, exp):
 
 def run(tier, seed):
     ck = Check("C05", "model_checking", tier, seed)
-    n, size = (500, 6) if tier == "quick" else (8000, 8)
+    n, size = (600, 6) if tier == "quick" else (9000, 8)
     total_disc = 0
     done = 0
     chunk = 1500
     while done < n:
         m = min(chunk, n - done)
-        # the second half of the programs also uses structs, field access, tuple destructuring (let and for)
-        # and try blocks (generator feature "ext")
-        feats = {"ext": True} if done >= n // 2 else None
-        if feats is None:
-            m = min(m, n // 2 - done)
+        # the second third of the programs also uses structs, field access, tuple destructuring (let and for)
+        # and try blocks (generator feature "ext"); the last third adds user-defined methods, dictionaries and
+        # the prelude's list / option methods and functions (feature "ext2")
+        third = n // 3
+        feats = None if done < third else {"ext": True} if done < 2 * third else {"ext": True, "ext2": True}
+        if done < 2 * third:
+            m = min(m, (third if done < third else 2 * third) - done)
         progs, srcs = refrun.gen_programs(seed, m, size, base=done, features=feats)
         res, exp = refrun.ref_expect(progs)
         ck.add_tlc(res)
